@@ -86,6 +86,7 @@ type Directives struct {
 	Unwind    int
 	Depth     int
 	Panics    string // violation | report | ignore
+	Permute   []string
 	Mode      string // merge (default) | fork
 	MaxPaths  int
 	NoTimers  bool
@@ -121,6 +122,8 @@ func parseDirectives(src string, fn string) Directives {
 				fmt.Sscanf(arg, "%d", &d.Depth)
 			case "panics":
 				d.Panics = arg
+			case "permute":
+				d.Permute = append(d.Permute, strings.Fields(arg)...)
 			case "mode":
 				d.Mode = arg
 			case "maxpaths":
